@@ -1698,6 +1698,91 @@ def gen_mxrr(repo):
 
 GENERATORS["MxrrGen"] = gen_mxrr
 
+
+# ---------------------------------------------------------------------------------------------------------------------------
+# multistage.py: allocate_snapshots -- the preamble (three clamps) and the final allocation -> the shapes of Proofs/AllocGenSpec.v.
+# The dry run between them (functools.singledispatch handlers over nonlocal state) is compared textually here and pinned (AllocPins).
+ALLOC_ARGS = "max_n, snapshots_in_ram, snapshots_on_disk, *, write_weight=1.0, read_weight=1.0, delete_weight=0.0, trajectory='maximum'"
+ALLOC_MID = ["weights = [0.0 for _ in range(snapshots)]",
+             "cp_schedule = MultistageCheckpointSchedule(max_n, snapshots, 0, trajectory=trajectory)",
+             "snapshot_i = -1"]
+ALLOC_LOOP = "while True:\n    cp_action = next(cp_schedule)\n    action(cp_action)\n    if isinstance(cp_action, EndReverse):\n        break"
+
+
+def gen_alloc(repo):
+    tree = ast.parse(open(os.path.join(repo, "checkpoint_schedules", "multistage.py")).read())
+    fs = [n for n in tree.body if isinstance(n, ast.FunctionDef) and n.name == "allocate_snapshots"]
+    if len(fs) != 1 or ast.unparse(fs[0].args) != ALLOC_ARGS or fs[0].decorator_list:
+        raise Untranslatable("def allocate_snapshots(%s)" % ALLOC_ARGS)
+    if not any(isinstance(n, ast.ImportFrom) and n.module == "operator" and n.level == 0 and any(a.name == "itemgetter" and not a.asname for a in n.names) for n in tree.body):
+        raise Untranslatable("multistage.py: from operator import itemgetter")
+    body = _strip_doc(fs[0].body)
+    env = ["max_n", "snapshots_in_ram", "snapshots_on_disk"]
+
+    def ex(e, names):
+        if isinstance(e, ast.Constant) and type(e.value) is int:
+            return str(e.value)
+        if isinstance(e, ast.Name) and e.id in names:
+            return e.id
+        if isinstance(e, ast.BinOp) and isinstance(e.op, (ast.Add, ast.Sub, ast.Mult)):
+            return "(%s %s %s)" % (ex(e.left, names), BIN[type(e.op)], ex(e.right, names))
+        if isinstance(e, ast.Call) and isinstance(e.func, ast.Name) and e.func.id in ("min", "max") and len(e.args) == 2 and not e.keywords:
+            return "(Z.%s %s %s)" % (e.func.id, ex(e.args[0], names), ex(e.args[1], names))
+        raise Untranslatable("expression " + ast.dump(e)[:80])
+    # preamble: integer assignments up to `weights = ...`
+    k = 0
+    pre = []
+    names = list(env)
+    while k < len(body) and isinstance(body[k], ast.Assign) and len(body[k].targets) == 1 and isinstance(body[k].targets[0], ast.Name) and body[k].targets[0].id != "weights":
+        x = body[k].targets[0].id
+        pre.append("  let %s := %s in" % (x, ex(body[k].value, names)))
+        if x not in names:
+            names.append(x)
+        k += 1
+    if names != env + ["snapshots"]:
+        raise Untranslatable("allocate_snapshots: the preamble defines %s" % names)
+    if [ast.unparse(x) for x in body[k:k + 3]] != ALLOC_MID:
+        raise Untranslatable("allocate_snapshots: weights / dry-run schedule / snapshot_i are not the statements the model was written for")
+    k += 3
+    while k < len(body) and isinstance(body[k], ast.FunctionDef):
+        k += 1
+    rest = body[k:]
+    if len(rest) != 5 or ast.unparse(rest[0]) != ALLOC_LOOP or ast.unparse(rest[1]) != "assert snapshot_i == -1":
+        raise Untranslatable("allocate_snapshots: the driver loop of the dry run")
+    a, f, r = rest[2:]
+
+    def sto(e):
+        if isinstance(e, ast.Attribute) and isinstance(e.value, ast.Name) and e.value.id == "StorageType" and e.attr in ("RAM", "DISK"):
+            return e.attr
+        raise Untranslatable("storage " + ast.dump(e)[:60])
+    if not (isinstance(a, ast.Assign) and len(a.targets) == 1 and isinstance(a.targets[0], ast.Name) and a.targets[0].id == "allocation"
+            and isinstance(a.value, ast.ListComp) and len(a.value.generators) == 1 and ast.unparse(a.value.generators[0].target) == "_"
+            and not a.value.generators[0].ifs and isinstance(a.value.generators[0].iter, ast.Call) and ast.unparse(a.value.generators[0].iter.func) == "range"
+            and len(a.value.generators[0].iter.args) == 1):
+        raise Untranslatable("allocate_snapshots: allocation = [S for _ in range(k)]")
+    init = "repeat %s (Z.to_nat %s)" % (sto(a.value.elt), ex(a.value.generators[0].iter.args[0], names))
+    if not (isinstance(f, ast.For) and not f.orelse and ast.unparse(f.target) == "(i, _)" and isinstance(f.iter, ast.Subscript) and isinstance(f.iter.slice, ast.Slice)
+            and f.iter.slice.lower is None and f.iter.slice.step is None and f.iter.slice.upper is not None
+            and ast.unparse(f.iter.value) == "sorted(enumerate(weights), key=itemgetter(1), reverse=True)"):
+        raise Untranslatable("allocate_snapshots: for i, _ in sorted(enumerate(weights), key=itemgetter(1), reverse=True)[:k]")
+    if not (len(f.body) == 1 and isinstance(f.body[0], ast.Assign) and len(f.body[0].targets) == 1 and ast.unparse(f.body[0].targets[0]) == "allocation[i]"):
+        raise Untranslatable("allocate_snapshots: allocation[i] = S")
+    if ast.unparse(r) != "return (tuple(weights), tuple(allocation))":
+        raise Untranslatable("allocate_snapshots: return tuple(weights), tuple(allocation)")
+    loop = "fold_left (fun allocation p => set_nth allocation (fst p) %s) (py_slice_to (sorted_desc_snd (enumerate weights)) %s) allocation" % (
+        sto(f.body[0].value), ex(f.iter.slice.upper, names))
+    return "\n".join(["(* GENERATED by harness/translate.py from checkpoint_schedules/multistage.py (allocate_snapshots: preamble and final allocation) -- do not edit *)",
+                      "From Coq Require Import ZArith List Bool.", "From CS Require Import Actions NAdvance Multistage AllocGenSpec.", "Open Scope Z_scope.", "",
+                      "Definition alloc_pre_gen (max_n snapshots_in_ram snapshots_on_disk : Z) : Z * Z * Z :="] + pre +
+                     ["  (snapshots_in_ram, snapshots_on_disk, snapshots).",
+                      "Definition alloc_tail_gen (weights : list Z) (snapshots snapshots_in_ram : Z) : list storage :=",
+                      "  let allocation := %s in" % init, "  %s." % loop,
+                      "Lemma alloc_pre_gen_is_shape : alloc_pre_gen = alloc_pre_shape.", "Proof. reflexivity. Qed.",
+                      "Lemma alloc_tail_gen_is_shape : alloc_tail_gen = alloc_tail_shape.", "Proof. reflexivity. Qed.", ""]) + "\n"
+
+
+GENERATORS["AllocGen"] = gen_alloc
+
 # ---------------------------------------------------------------------------------------------------------------------------
 # hrevolve.py: RevolveCheckpointSchedule._iterator (the converter of the four Revolve-family classes) -> coq/Model/GenLang4.v
 ZL4 = {"i": "Li", "n_0": "Ln_0", "n_1": "Ln_1", "w_n0": "Lw_n0", "d_n0": "Ld_n0"}
